@@ -33,8 +33,8 @@ check(
 )
 check(
     "C08",
-    "Bounded, solver-decided: on one symbolic object the Python halves of XmlEventWriter, LxmlEventWriter and LxmlTreeBuilder must emit infoset-equal SAX streams (or fail alike), and on one symbolic event stream XmlEventHandler (with merge_parent_namespaces) and LxmlEventHandler must build equal objects (or fail alike); iterwalk (pure Python) is compared with the iterparse-contract stream. Same builders, values and partitions as C01.",
-    _SEAM_NOTE + " Source kinds that are I/O (bytes, str, path, file object) and everything inside the C libraries are outside.",
+    "Bounded, solver-decided: on one symbolic object the Python halves of XmlEventWriter, LxmlEventWriter and LxmlTreeBuilder must emit infoset-equal SAX streams (or fail alike), and on one symbolic event stream XmlEventHandler (with merge_parent_namespaces) and LxmlEventHandler must build equal objects (or fail alike); iterwalk (pure Python) is compared with the iterparse-contract stream. Same builders, values and partitions as C01. In addition (selector driven, concrete runs through the real lxml/expat front ends): every pool document supplied as bytes, str, path, binary/text file object, lxml tree/element and ElementTree tree/element to both handlers must build the object its bytes build.",
+    _SEAM_NOTE + " What the C libraries do on the writing side (escaping, encodings) is outside; the source-kind driver executes the C parsers, it does not model them.",
     "symbolic execution (CrossHair+z3) of both writers' and both handlers' Python halves on the same symbolic input, differential comparison",
     "DESIGN.md §5 C08",
 )
@@ -54,15 +54,15 @@ check(
 )
 check(
     "C15",
-    "Bounded, solver-decided: every single-point fault of 12 kinds (delete, duplicate, retag, swap, inject child, corrupt text/attribute, delete/add attribute, bad xsi:type, bad xsi:nil, undeclared QName prefix) at every node of valid pool documents, with symbolic corrupt strings, is pushed through the real handlers and NodeParser; the call must return an instance of the requested class or raise ParserError/ConverterError/XmlContextError and nothing else. Dictionaries: 8 fault kinds at every key path through the real DictDecoder. The SyntaxError->ParserError wrapper of NodeParser.parse is driven by a stub handler.",
-    _SEAM_NOTE + " Byte-level faults (truncation, byte flips) and expat's well-formedness checking are behind the seam and outside the claim; termination is implied only by path exhaustion under a per-path timeout.",
+    "Bounded, solver-decided: every single-point fault of 12 kinds (delete, duplicate, retag, swap, inject child, corrupt text/attribute, delete/add attribute, bad xsi:type, bad xsi:nil, undeclared QName prefix) at every node of valid pool documents, with symbolic corrupt strings, is pushed through the real handlers and NodeParser; the call must return an instance of the requested class or raise ParserError/ConverterError/XmlContextError and nothing else. Dictionaries: 8 fault kinds at every key path through the real DictDecoder. The SyntaxError->ParserError wrapper of NodeParser.parse is driven by a stub handler. Text level (selector driven, concrete runs through the real lxml/expat front ends): truncation at every byte offset, every byte replaced by each of 8 bytes, 9 kinds of junk after the root element, for both handlers; instance or documented error only, and the native handler must not return an instance when expat driven directly rejects the bytes.",
+    _SEAM_NOTE + " Random byte strings and multi-point faults are outside; the text-level driver executes the C parsers (the solver only enumerates offsets); termination is implied only by path exhaustion under a per-path timeout.",
     "symbolic execution (CrossHair+z3) of the real parser/decoder over solver-chosen fault placements and symbolic corrupt values",
     "DESIGN.md §5 C15",
 )
 check(
     "C09",
-    "Bounded, solver-decided: valid event streams of pool documents are rewritten by a symbolic composition of meaning-preserving rewrites - prefix renaming through four naming schemes (incl. reusing ns0/ns1/xsi for other URIs) applied consistently inside xsi:type and QName-typed values, root namespace moved to the default namespace, reversed attribute order, symbolic white-space-only text/tails in element-only content, symbolic white space around non-string values, redundant redeclarations on a selector-chosen descendant - and parsed with both real handlers; the object must equal the parse of the original stream. get_base_url is checked against its documented rule.",
-    _SEAM_NOTE + " Comments, PIs, CDATA, character references, encodings and XInclude loading are resolved inside expat/libxml2 before the seam: outside.",
+    "Bounded, solver-decided: valid event streams of pool documents are rewritten by a symbolic composition of meaning-preserving rewrites - prefix renaming through four naming schemes (incl. reusing ns0/ns1/xsi for other URIs) applied consistently inside xsi:type and QName-typed values, root namespace moved to the default namespace, reversed attribute order, symbolic white-space-only text/tails in element-only content, symbolic white space around non-string values, redundant redeclarations on a selector-chosen descendant - and parsed with both real handlers; the object must equal the parse of the original stream. get_base_url is checked against its documented rule. Text level (selector driven, concrete runs through the real lxml/expat front ends): a comment or a processing instruction at every character-data / between-tags position (symbolic position), every literal character replaced by a character reference, every text run wrapped in CDATA, white space inside every tag, quote style, five encodings; the outcome must equal that of the unrewritten document for both handlers.",
+    _SEAM_NOTE + " XInclude loading is outside; text-level rewrites are applied one at a time and execute the C parsers (the solver only enumerates positions).",
     "symbolic execution (CrossHair+z3) of the real handlers/parser over symbolically rewritten event streams",
     "DESIGN.md §5 C09",
 )
